@@ -1225,6 +1225,11 @@ void MEDDLY::dd_edge::showGraph(output &s) const
 
 void MEDDLY::dd_edge::write(output &s, const std::vector <size_t> &map) const
 {
+    forest* efp = forest::getForestWithID(parentFID);
+    if (!efp) {
+        throw error(error::FOREST_MISMATCH, __FILE__, __LINE__);
+    }
+
     //
     // Edge info
     //
@@ -1238,7 +1243,6 @@ void MEDDLY::dd_edge::write(output &s, const std::vector <size_t> &map) const
         //
         // terminal
         //
-        forest* efp = forest::getForestWithID(parentFID);
         terminal t;
         t.setFromHandle(efp->getTerminalType(), node);
         t.write(s);
